@@ -68,9 +68,10 @@ func (c *coord) command(env envVariant, args ...string) *exec.Cmd {
 
 // runBatch runs one worker process and returns its output. Any failure of the
 // worker itself is infrastructure trouble (exit 2), never a verdict.
-func (c *coord) runBatch(env envVariant, from, to int) (*WorkerOut, error) {
+func (c *coord) runBatch(env envVariant, from, to int, extra ...string) (*WorkerOut, error) {
 	out := c.tmpFile("w")
-	cmd := c.command(env, "worker", "-prop", c.prop, "-seed", fmt.Sprint(c.seed), "-from", fmt.Sprint(from), "-to", fmt.Sprint(to), "-tier", c.tier, "-out", out)
+	args := append([]string{"worker", "-prop", c.prop, "-seed", fmt.Sprint(c.seed), "-from", fmt.Sprint(from), "-to", fmt.Sprint(to), "-tier", c.tier, "-out", out}, extra...)
+	cmd := c.command(env, args...)
 	var stdout strings.Builder
 	cmd.Stdout = &stdout
 	if err := cmd.Run(); err != nil {
@@ -136,9 +137,9 @@ func planFor(prop, tier string) tierPlan {
 		return tierPlan{runs: 4000000, batch: 2000, capS: 1800, minS: 120}
 	case "C17":
 		if q {
-			return tierPlan{runs: 24000, batch: 250, capS: 120, minS: 30, cross: 8}
+			return tierPlan{runs: 20000, batch: 250, capS: 120, minS: 30, cross: 24}
 		}
-		return tierPlan{runs: 1500000, batch: 1000, capS: 1800, minS: 120, cross: 48}
+		return tierPlan{runs: 1500000, batch: 1000, capS: 1800, minS: 120, cross: 160}
 	default:
 		if q {
 			return tierPlan{runs: 8000, batch: 100, capS: 120, minS: 45}
@@ -241,7 +242,7 @@ func cmdRun(args []string) int {
 			continue
 		}
 		agg.add(d.w)
-		if *prop == "C17" && len(baseDigests) < plan.cross*4 {
+		if *prop == "C17" && len(baseDigests) < plan.cross {
 			baseDigests[d.from] = d.w.Digests
 		}
 		for _, fv := range d.w.Found {
@@ -269,10 +270,12 @@ func cmdRun(args []string) int {
 			env  envVariant
 		}
 		var cjs []cj
-		for _, f := range starts {
-			for _, ev := range envVariants {
-				cjs = append(cjs, cj{f, ev})
-			}
+		for k, f := range starts {
+			// one re-run per compared batch: another environment AND the runs
+			// in reverse order (a result that depends on the calls made
+			// earlier in the process shows as well as one that depends on
+			// GOMAXPROCS, GOGC, the map hash seed or the heap layout)
+			cjs = append(cjs, cj{f, envVariants[k%len(envVariants)]})
 		}
 		var mu sync.Mutex
 		sem := make(chan struct{}, *workers)
@@ -284,7 +287,8 @@ func cmdRun(args []string) int {
 			go func() {
 				defer cwg.Done()
 				defer func() { <-sem }()
-				w, err := c.runBatch(j.env, j.from, j.from+len(baseDigests[j.from]))
+				to := j.from + len(baseDigests[j.from])
+				w, err := c.runBatch(j.env, j.from, to, "-reverse")
 				mu.Lock()
 				defer mu.Unlock()
 				if err != nil {
@@ -294,12 +298,15 @@ func cmdRun(args []string) int {
 				}
 				agg.crossRuns += w.Runs
 				agg.fired["env:"+j.env.name] += int64(w.Runs)
+				agg.fired["reverse-run-order"] += int64(w.Runs)
 				base := baseDigests[j.from]
 				for i := range base {
 					if i < len(w.Digests) && w.Digests[i] != base[i] {
 						s, _ := genScript("C17", *seed, j.from+i, *tier == "thorough")
-						found = append(found, foundItem{FoundViolation{Script: s, Violations: []Violation{{Class: "cross-process", Symptom: "differs-across-processes", Pert: j.env.name,
-							OpKind: s.Tasks[0][0].K, Detail: fmt.Sprintf("outcome digest %x under %s but %x under %s", base[i], envBase.name, w.Digests[i], j.env.name)}}}, j.from})
+						found = append(found, foundItem{FoundViolation{Script: s,
+							Cross: &CrossReplay{Seed: *seed, From: j.from, To: to, Run: j.from + i, Tier: *tier, EnvB: j.env.name, ReverseB: true},
+							Violations: []Violation{{Class: "cross-process", Symptom: "differs-across-processes", Pert: j.env.name + " reverse-order",
+								OpKind: s.Tasks[0][0].K, Detail: fmt.Sprintf("outcome digest %x in a process under %s running the batch forwards but %x under %s running it backwards", base[i], envBase.name, w.Digests[i], j.env.name)}}}, j.from})
 						break
 					}
 				}
@@ -437,6 +444,7 @@ type Replay struct {
 	Property  string     `json:"property"`
 	Kind      string     `json:"kind,omitempty"` // "" literal script | seeded-prefix
 	Prefix    *PrefixReplay `json:"prefix,omitempty"`
+	Cross     *CrossReplay  `json:"cross,omitempty"`
 	Key       string     `json:"finding_key"`
 	Violation Violation  `json:"violation"`
 	Script    *Script    `json:"script"`
@@ -490,6 +498,15 @@ func cmdReplay(args []string) int {
 	}
 	defer os.RemoveAll(tmp)
 	c := &coord{self: self, tmp: tmp, prop: rep.Property}
+	if rep.Kind == "cross-process-batch" && rep.Cross != nil {
+		c.seed, c.tier = rep.Cross.Seed, rep.Cross.Tier
+		if v := c.crossReproduces(rep.Cross, &rep.Violation); v != nil {
+			fmt.Printf("VIOLATION property=%s replay=%s\n  key=%s\n  %s\n", rep.Property, *file, findingKey(rep.Property, v), v.Detail)
+			return 1
+		}
+		fmt.Printf("replay %s: the recorded violation does not occur on this tree (property=%s key=%s)\n", *file, rep.Property, rep.Key)
+		return 0
+	}
 	if rep.Kind == "seeded-prefix" && rep.Prefix != nil {
 		c.seed, c.tier = rep.Prefix.Seed, rep.Prefix.Tier
 		if v := c.prefixReproduces(rep.Prefix.From, rep.Prefix.Run, &rep.Violation); v != nil {
@@ -677,4 +694,48 @@ func cmdMinimise(args []string) int {
 	os.Stdout.Write(out)
 	fmt.Println()
 	return 0
+}
+
+func envByName(name string) envVariant {
+	for _, e := range envVariants {
+		if e.name == name {
+			return e
+		}
+	}
+	return envBase
+}
+
+// crossReproduces re-runs the two worker configurations of a cross-process
+// finding and classifies the difference: does the run's outcome depend on the
+// environment, or on the calls made earlier in the process?
+func (c *coord) crossReproduces(cr *CrossReplay, want *Violation) *Violation {
+	for attempt := 0; attempt < 3; attempt++ {
+		a, err := c.runBatch(envBase, cr.From, cr.To)
+		if err != nil {
+			return nil
+		}
+		var extra []string
+		if cr.ReverseB {
+			extra = append(extra, "-reverse")
+		}
+		b, err := c.runBatch(envByName(cr.EnvB), cr.From, cr.To, extra...)
+		if err != nil {
+			return nil
+		}
+		i := cr.Run - cr.From
+		if i < 0 || i >= len(a.Digests) || i >= len(b.Digests) || a.Digests[i] == b.Digests[i] {
+			continue
+		}
+		v := *want
+		cause := "the environment (" + cr.EnvB + ")"
+		if f, err := c.runBatch(envByName(cr.EnvB), cr.From, cr.To); err == nil && i < len(f.Digests) && f.Digests[i] == a.Digests[i] {
+			cause = "the calls made earlier in the same process (the batch was executed in reverse order)"
+			v.Pert = "call-history"
+		} else {
+			v.Pert = "environment"
+		}
+		v.Detail = fmt.Sprintf("run %d of VERIF_SEED=%d gives outcome digest %x in one process and %x in another; the difference follows %s", cr.Run, cr.Seed, a.Digests[i], b.Digests[i], cause)
+		return &v
+	}
+	return nil
 }
